@@ -107,6 +107,7 @@ func VerifNewPM(blocks int) (*VerifPM, error) {
 		return nil, errors.New("verif: no protocol manager")
 	}
 	pm.fetcher.Start()
+	pm.maxPeers = 1000
 	atomic.StoreUint32(&pm.acceptTxs, 1)
 	rw := &verifRW{}
 	var id discover.NodeID
@@ -294,4 +295,75 @@ func (v *VerifPM) ValidPayload(code uint64, pick func(int) int) []byte {
 		panic("verif: cannot encode valid payload: " + err.Error())
 	}
 	return out
+}
+
+// ---- stalling peers ----
+
+const VerifHandshakeTimeout = handshakeTimeout
+
+// VerifStallRW is a transport whose reads and writes can be withheld: ReadMsg delivers the messages put on In and
+// returns io.EOF once In is closed; WriteMsg completes only while Accept is true (otherwise it blocks until Release).
+type VerifStallRW struct {
+	In      chan p2p.Msg
+	Accept  bool
+	release chan struct{}
+	Wrote   chan uint64 // codes of completed writes (buffered)
+}
+
+func VerifNewStallRW(acceptWrites bool) *VerifStallRW {
+	return &VerifStallRW{In: make(chan p2p.Msg, 4), Accept: acceptWrites, release: make(chan struct{}), Wrote: make(chan uint64, 64)}
+}
+func (rw *VerifStallRW) ReadMsg() (p2p.Msg, error) {
+	m, ok := <-rw.In
+	if !ok {
+		return p2p.Msg{}, io.EOF
+	}
+	return m, nil
+}
+func (rw *VerifStallRW) WriteMsg(m p2p.Msg) error {
+	if !rw.Accept {
+		<-rw.release
+		return errors.New("verif: connection released")
+	}
+	io.Copy(ioutil.Discard, m.Payload)
+	select {
+	case rw.Wrote <- m.Code:
+	default:
+	}
+	return nil
+}
+
+// Release unblocks everything that is still waiting on the transport (after the judgement was taken).
+func (rw *VerifStallRW) Release() {
+	defer func() { recover() }()
+	close(rw.release)
+	close(rw.In)
+}
+
+func (v *VerifPM) stallPeer(rw p2p.MsgReadWriter, tag byte) *peer {
+	var id discover.NodeID
+	id[0], id[1], id[2] = 0x57, tag, 0x01
+	return v.pm.newPeer(int(ProtocolVersions[int(tag)%len(ProtocolVersions)]), p2p.NewPeer(id, "verif-stall", nil), rw)
+}
+
+// Handle runs the real ProtocolManager.handle (status handshake, registration, message loop) for a fresh peer on rw.
+func (v *VerifPM) Handle(rw p2p.MsgReadWriter, tag byte) error {
+	return v.pm.handle(v.stallPeer(rw, tag))
+}
+
+// Handshake runs the real peer.Handshake with the manager's own chain parameters.
+func (v *VerifPM) Handshake(rw p2p.MsgReadWriter, tag byte) error {
+	head := v.pm.blockchain.CurrentHeader()
+	td := v.pm.blockchain.GetTd(head.Hash(), head.Number.Uint64())
+	return v.stallPeer(rw, tag).Handshake(v.pm.networkId, td, head.Hash(), v.genesis.Hash())
+}
+
+// StatusFor returns a well-formed Status payload for the protocol version the stall peer with this tag speaks.
+func (v *VerifPM) StatusFor(tag byte) []byte {
+	b, err := rlp.EncodeToBytes(&statusData{ProtocolVersion: uint32(ProtocolVersions[int(tag)%len(ProtocolVersions)]), ChainId: v.pm.networkId,
+		TD: big.NewInt(12345), CurrentBlock: v.genesis.Hash(), GenesisBlock: v.genesis.Hash()})
+	if err != nil {
+		panic(err)
+	}
+	return b
 }
